@@ -56,11 +56,16 @@ pub struct CfbOpts {
     /// with an exact number of FAT sectors (237 = 109 + 128: the first count for which the DIFAT walk needs the
     /// link of a second DIFAT sector). `random()` leaves it off.
     pub free_after_tables: bool,
+    /// over-allocated chains: every non-empty stream gets this many spare sectors (regular streams) / mini sectors
+    /// (streams below 4096 bytes) linked BEHIND the sectors its size needs; the size field stays exact. Legal per
+    /// MS-CFB (the size is authoritative; editors that shrink a stream in place leave such chains behind).
+    /// `random()` leaves it at 0.
+    pub spare_sectors: usize,
 }
 
 impl Default for CfbOpts {
     fn default() -> CfbOpts {
-        CfbOpts { sector_size: 512, shuffle: false, mini_shuffle: false, extra_free: 0, unused_dirs: 0, dir_shuffle: false, min_fat_sectors: 0, fill: 0, name_garbage: false, placement: 0, dir_first: false, free_after_tables: false }
+        CfbOpts { sector_size: 512, shuffle: false, mini_shuffle: false, extra_free: 0, unused_dirs: 0, dir_shuffle: false, min_fat_sectors: 0, fill: 0, name_garbage: false, placement: 0, dir_first: false, free_after_tables: false, spare_sectors: 0 }
     }
 }
 
@@ -74,6 +79,7 @@ impl CfbOpts {
             placement: 0,
             dir_first: false,
             free_after_tables: false,
+            spare_sectors: 0,
             name_garbage,
             sector_size: if v4 { 4096 } else { 512 },
             shuffle: rng.chance(3, 4),
@@ -158,12 +164,12 @@ fn pad_to(v: &mut Vec<u8>, multiple: usize, fill: u8) {
 /// not counting free, FAT and DIFAT sectors
 pub fn chain_sectors(streams: &[(String, Vec<u8>)], opts: &CfbOpts) -> usize {
     let ss = opts.sector_size;
-    let nm: usize = streams.iter().map(|(_, d)| if d.len() < 4096 { d.len().div_ceil(64) } else { 0 }).sum();
+    let nm: usize = streams.iter().map(|(_, d)| if d.len() < 4096 && !d.is_empty() { d.len().div_ceil(64) + opts.spare_sectors } else { 0 }).sum();
     let mut n = (1 + streams.len() + opts.unused_dirs).div_ceil(ss / 128);
     if nm > 0 {
         n += (nm * 4).div_ceil(ss) + (nm * 64).div_ceil(ss);
     }
-    n + streams.iter().filter(|(_, d)| d.len() >= 4096).map(|(_, d)| d.len().div_ceil(ss)).sum::<usize>()
+    n + streams.iter().filter(|(_, d)| d.len() >= 4096).map(|(_, d)| d.len().div_ceil(ss) + opts.spare_sectors).sum::<usize>()
 }
 
 /// the `extra_free` that makes `write_cfb(streams, opts)` need exactly `n_fat` FAT sectors, the file having the
@@ -193,7 +199,7 @@ pub fn write_cfb(streams: &[(String, Vec<u8>)], opts: &CfbOpts, rng: &mut Rng) -
     let mut mini_counts = vec![];
     let mut nm = 0usize;
     for (_, d) in streams {
-        let n = if d.len() < 4096 { d.len().div_ceil(64) } else { 0 };
+        let n = if d.len() < 4096 && !d.is_empty() { d.len().div_ceil(64) + opts.spare_sectors } else { 0 };
         mini_counts.push(n);
         nm += n;
     }
@@ -210,7 +216,7 @@ pub fn write_cfb(streams: &[(String, Vec<u8>)], opts: &CfbOpts, rng: &mut Rng) -
         let ids = &mperm[next_mini..next_mini + n];
         next_mini += n;
         for (k, &i) in ids.iter().enumerate() {
-            let piece = &d[k * 64..d.len().min((k + 1) * 64)];
+            let piece = &d[(k * 64).min(d.len())..d.len().min((k + 1) * 64)]; // empty for a spare mini sector
             mini[i * 64..i * 64 + piece.len()].copy_from_slice(piece);
             minifat[i] = if k + 1 < n { ids[k + 1] as u32 } else { ENDOFCHAIN };
         }
@@ -241,7 +247,7 @@ pub fn write_cfb(streams: &[(String, Vec<u8>)], opts: &CfbOpts, rng: &mut Rng) -
     if !opts.dir_first {
         chains.push((-3, vec![0u8; ndir_sect * ss]));
     }
-    let nsect: Vec<usize> = chains.iter().map(|(_, d)| d.len().div_ceil(ss)).collect();
+    let nsect: Vec<usize> = chains.iter().map(|(tag, d)| d.len().div_ceil(ss) + if *tag >= 0 { opts.spare_sectors } else { 0 }).collect();
     let data_sectors: usize = nsect.iter().sum::<usize>() + opts.extra_free;
 
     // --- number of FAT and DIFAT sectors (fixpoint)
@@ -288,7 +294,7 @@ pub fn write_cfb(streams: &[(String, Vec<u8>)], opts: &CfbOpts, rng: &mut Rng) -
     for ((tag, d), &n) in chains.iter().zip(&nsect) {
         let cid: Vec<usize> = (0..n).map(|_| it.next().unwrap()).collect();
         for (k, &i) in cid.iter().enumerate() {
-            let piece = &d[k * ss..d.len().min((k + 1) * ss)];
+            let piece = &d[(k * ss).min(d.len())..d.len().min((k + 1) * ss)]; // empty for a spare sector
             sectors[i][..piece.len()].copy_from_slice(piece);
             fat[i] = if k + 1 < n { cid[k + 1] as u32 } else { ENDOFCHAIN };
         }
